@@ -475,7 +475,10 @@ def _op_write(ctx, o):
             except OSError as e:
                 raised = e
             except SimCrash:
-                # the writing process died: only SimFS survives
+                # the writing process died: only SimFS survives (and an earlier document of the same name is gone:
+                # writes are not atomic, which C19 does not promise)
+                for k_ in [k_ for k_, v_ in ctx.files.items() if v_[0] == path]:
+                    del ctx.files[k_]
                 fk = ctx.fs.fired[-1]["kind"]
                 ctx.fired[fk] = ctx.fired.get(fk, 0) + 1
                 ctx.fs.plan = []
@@ -494,6 +497,8 @@ def _op_write(ctx, o):
             fired_now = len(ctx.fs.fired) > nfired
             ctx.fs.plan = []
             if fired_now:
+                for k_ in [k_ for k_, v_ in ctx.files.items() if v_[0] == path]:
+                    del ctx.files[k_]   # the failed write destroyed whatever document had that name
                 fk = ctx.fs.fired[-1]["kind"]
                 ctx.fired[fk] = ctx.fired.get(fk, 0) + 1
                 if raised is None:
